@@ -65,17 +65,21 @@ theorem step_safe (rs : Regs) (op : Op) (h : RegsInv rs) (hop : op.WF) :
     | some x => exact ⟨_, .val x, by simp [step, this, hq], h⟩
   | addAssign d s =>
     have e : d ≠ s := hop
-    obtain ⟨w, hw, hwI, _⟩ := addAssign_spec (getR rs d) (getR rs s) (inv_getR h d) (inv_getR h s)
-    exact ⟨_, .ok, by simp [step, e, hw], inv_setR h d hwI⟩
+    by_cases g : (!((getR rs d).small && (getR rs s).small)) = true
+    · exact ⟨rs, .skip, by simp [step, e, g], h⟩
+    · obtain ⟨w, hw, hwI, _⟩ := addAssign_spec (getR rs d) (getR rs s) (inv_getR h d) (inv_getR h s)
+      exact ⟨_, .ok, by simp [step, e, g, hw], inv_setR h d hwI⟩
   | baseAdd d s =>
     have e : d ≠ s := hop
-    obtain ⟨h1, h2⟩ := baseAdd_spec (getR rs d) (getR rs s) (inv_getR h d) (inv_getR h s)
-    by_cases a : (getR rs d).start = (getR rs s).start ∧ (getR rs d).len = (getR rs s).len
-    · obtain ⟨w, hw, hwI, _⟩ := h1 a
-      exact ⟨_, .ok, by simp [step, e, hw], inv_setR h d hwI⟩
-    · have : ¬ ((getR rs d).minIndex = (getR rs s).minIndex ∧ (getR rs d).maxIndex = (getR rs s).maxIndex) := by
-        unfold Vec.minIndex Vec.maxIndex; omega
-      exact ⟨_, .errRange, by simp [step, e, h2 this], h⟩
+    by_cases g : (!((getR rs d).small && (getR rs s).small)) = true
+    · exact ⟨rs, .skip, by simp [step, e, g], h⟩
+    · obtain ⟨h1, h2⟩ := baseAdd_spec (getR rs d) (getR rs s) (inv_getR h d) (inv_getR h s)
+      by_cases a : (getR rs d).start = (getR rs s).start ∧ (getR rs d).len = (getR rs s).len
+      · obtain ⟨w, hw, hwI, _⟩ := h1 a
+        exact ⟨_, .ok, by simp [step, e, g, hw], inv_setR h d hwI⟩
+      · have : ¬ ((getR rs d).minIndex = (getR rs s).minIndex ∧ (getR rs d).maxIndex = (getR rs s).maxIndex) := by
+          unfold Vec.minIndex Vec.maxIndex; omega
+        exact ⟨_, .errRange, by simp [step, e, g, h2 this], h⟩
   | recycle r =>
     exact ⟨_, .ok, rfl, inv_setR h r inv_empty⟩
   | eq a b =>
